@@ -143,6 +143,9 @@ pub struct KnownFinding {
     /// match only violations that went through the minimiser
     #[serde(default)]
     pub minimized_only: bool,
+    /// name of a built-in predicate over the violation detail that must hold too
+    #[serde(default)]
+    pub custom: Option<String>,
     pub what: String,
 }
 
@@ -173,6 +176,11 @@ pub fn match_known<'a>(known: &'a [KnownFinding], v: &Violation, minimized: bool
         if !k.script_contains.iter().all(|c| script.iter().any(|st| st.contains(c.as_str()))) {
             return false;
         }
+        if let Some(c) = &k.custom {
+            if !custom_predicate(c, &hay) {
+                return false;
+            }
+        }
         k.status == "open"
             && k.dev.is_none()
             && k.properties.iter().any(|p| p == &v.property)
@@ -181,6 +189,29 @@ pub fn match_known<'a>(known: &'a [KnownFinding], v: &Violation, minimized: bool
             && k.contains.iter().all(|c| hay.contains(c.as_str()))
             && (k.any_of.is_empty() || k.any_of.iter().any(|c| hay.contains(c.as_str())))
     })
+}
+
+/// Built-in predicates for known findings whose signature needs arithmetic.
+fn custom_predicate(name: &str, hay: &str) -> bool {
+    match name {
+        // "array datatype Decimal64(p1,s1), announced Decimal64(p2,s2)" with s1 == s2 and p1 == p2 + 1
+        "decimal_precision_plus_one" => {
+            let nums = |tag: &str| -> Option<(i64, i64, String)> {
+                let i = hay.find(tag)? + tag.len();
+                let rest = &hay[i..];
+                let open = rest.find('(')?;
+                let kind = rest[..open].trim().to_string();
+                let close = rest.find(')')?;
+                let mut it = rest[open + 1..close].split(',');
+                Some((it.next()?.trim().parse().ok()?, it.next()?.trim().parse().ok()?, kind))
+            };
+            match (nums("array datatype "), nums("announced ")) {
+                (Some((p1, s1, k1)), Some((p2, s2, k2))) => k1 == k2 && s1 == s2 && p1 == p2 + 1,
+                _ => false,
+            }
+        }
+        _ => false,
+    }
 }
 
 pub struct CampaignCfg {
